@@ -176,25 +176,35 @@ def _split_case(seed):
                 out.write(a)
         pysam.index(bam)
         tfile = os.path.join(d, "groups.tsv")
+        # the user's table layout (own generator: the cases of earlier seeds keep their BAM and table): which column holds the read id,
+        # which the group, the delimiter; given through the documented spec --read_group file:FILE[:READ_COL:GROUP_COL[:DELIM]]
+        rng2 = random.Random(seed * 17 + 3)
+        rcol, gcol = rng2.choice([(0, 1), (0, 1), (1, 0), (0, 2), (2, 1)])
+        delim = rng2.choice(["\t", "\t", ",", ";"])
         with open(tfile, "w") as f:
-            f.write("#read\tgroup\n")
+            f.write("#comment line\n")
             for r, g in table.items():
-                f.write("%s\t%s\n" % (r, g))
-        sample = types.SimpleNamespace(file_list=[[bam]], read_group_file=os.path.join(d, "split"))
-        rg.split_read_group_table(tfile, sample, 0, 1, "\t")
+                cols = ["filler%d" % k_ for k_ in range(3)]
+                cols[rcol], cols[gcol] = r, g
+                f.write(delim.join(cols) + "\n")
+        spec_str = "file:%s" % tfile if (rcol, gcol, delim) == (0, 1, "\t") and rng2.random() < .5 else \
+            ("file:%s:%d:%d" % (tfile, rcol, gcol) if delim == "\t" else "file:%s:%d:%d:%s" % (tfile, rcol, gcol, delim))
+        args = types.SimpleNamespace(read_group=spec_str)
+        sample = types.SimpleNamespace(file_list=[[bam]], read_group_file=os.path.join(d, "split"), readable_names_dict={})
+        rg.prepare_read_groups(args, sample)
         for ci, c in enumerate(chroms):
             path = sample.read_group_file + "_" + c
             if not os.path.exists(path):
                 problems.append("no split table for %s" % c)
                 continue
-            grouper = rg.ReadTableGrouper(path, 0, 1, "\t")
+            grouper = rg.create_read_grouper(args, sample, c)
             for ci2, pos, r, suppl in recs:
                 if ci2 != ci:
                     continue
                 got = grouper.get_group_id(types.SimpleNamespace(query_name=r))
                 want = table.get(r, "NA")
                 if got != want:
-                    problems.append("read %s on %s grouped as %s, the table says %s" % (r, c, got, want))
+                    problems.append("read %s on %s grouped as %s, the table says %s (--read_group %s)" % (r, c, got, want, spec_str.replace(tfile, "FILE")))
     finally:
         shutil.rmtree(d, ignore_errors=True)
     return problems
@@ -205,7 +215,7 @@ def replay_split(d):
     return (not p), "seed %s: %s" % (d["inputs"]["seed"], p or "every alignment grouped as the table says")
 
 
-@bounded("C09.read_group_table_split", ["C09"], shards=4, note="real split_read_group_table on a pysam-written BAM with 2-3 references where some reads "
+@bounded("C09.read_group_table_split", ["C09"], shards=4, note="real prepare_read_groups / create_read_grouper for --read_group file:FILE[:READ_COL:GROUP_COL[:DELIM]] (column layouts 0:1, 1:0, 0:2, 2:1; tab, comma, semicolon) on a pysam-written BAM with 2-3 references where some reads "
          "align to several chromosomes (supplementary records), then the real per-chromosome ReadTableGrouper: every alignment of a read "
          "listed in the user's table must be grouped under the table's entry on every chromosome, unlisted reads under NA")
 def c09_split(tier, rng):
